@@ -24,6 +24,8 @@ let parse_imode s : Events.imode =
   let n () = nat (int_of_string (S.sub s 1 (S.length s - 1))) in
   match s.[0] with
   | 'p' -> Events.IPass | 'j' -> Events.IReject (n ()) | 'o' -> Events.IOverride (n ())
+  | 'r' -> Events.IReplace (bytes_of_hex (S.sub s 1 (S.length s - 1)))
+  | 'k' -> Events.IAnswer (bytes_of_hex (S.sub s 1 (S.length s - 1)))
   | _ -> failwith "bad imode"
 
 (* ---- printing the model's record in the harness' notation ---- *)
@@ -105,7 +107,9 @@ let eval (proxied : bool) (svc : string) inp obs : string option * string option
     let acts = L.map parse_act acts_s in
     let code = int_of_string code and reply = bytes_of_hex reply in
     let md = parse_imode imode in
-    let icode = match md with Events.IPass -> None | Events.IReject c | Events.IOverride c -> Some (int_of_nat c) in
+    let icode = match md with Events.IReject c | Events.IOverride c -> Some (int_of_nat c) | _ -> None in
+    (* a unary interceptor that answers with a message of its own (r: after the handler succeeded, k: instead of calling it) *)
+    let own = if unary && icpt then (match md with Events.IReplace m | Events.IAnswer m -> Some m | _ -> None) else None in
     let sc : Events.scenario = {
       Events.s_proto = (match proto with "http" -> Events.PHttp | "grpc" -> Events.PGrpc | "web" -> Events.PWeb | _ -> failwith "proto");
       s_cs = cs; s_ss = ss; s_name = name; s_routed = routed; s_rule_body = (rulebody = "1");
@@ -140,7 +144,7 @@ let eval (proxied : bool) (svc : string) inp obs : string option * string option
           let sent_h =
             if proxied then
               (* the backend handler sends every scripted reply unless the interceptor kept the call from it *)
-              (match md with Events.IReject _ -> [] | _ -> L.filter_map (fun a -> match a with Events.ASend p -> Some p | _ -> None) acts)
+              (match md with Events.IReject _ -> [] | Events.IAnswer _ when unary && icpt -> [] | _ -> L.filter_map (fun a -> match a with Events.ASend p -> Some p | _ -> None) acts)
             else
             let rec go acts logs = match acts, logs with
               | a :: ar, l :: lr -> (match a with Events.ASend p when l = "k" -> p :: go ar lr | _ -> go ar lr)
@@ -189,10 +193,15 @@ let eval (proxied : bool) (svc : string) inp obs : string option * string option
               if icpt && iret <> "-" && not has_cancel then
                 (match cstatus with
                  | Some c when string_of_int c <> iret -> Some (Printf.sprintf "the interceptor returned code %s, the client got %d" iret c)
-                 | _ -> if unary && iret = "0" && replies <> [reply] && icode = None then Some "the client did not get the reply the interceptor returned" else None)
+                 | _ ->
+                   let want = match own with Some m -> m | None -> reply in
+                   if unary && iret = "0" && replies <> [want] && icode = None then
+                     Some (if own = None then "the client did not get the reply the interceptor returned"
+                           else "the interceptor returned a message of its own, the client got another reply")
+                   else None)
               else None in
             let chk_transparent =
-              if icode = None || not icpt then
+              if (icode = None && own = None) || not icpt then
                 (if (hs, gs, body) <> (bhs, bgs, bbody) then Some (Printf.sprintf "installing the options changed the client-visible result: %s/%s/%s vs %s/%s/%s" hs gs body bhs bgs bbody)
                  else if (not proxied) && (hlog <> bhlog || dlv <> bdlv) then Some "installing the options changed what the handler saw" else None)
               else None in
@@ -251,4 +260,42 @@ let run inp obs : string option * string option =
       ["1"; panic; calls; ev; "*"; dlv; iret; hs; gs; body; bpanic; "*"; dlv; bhs; bgs; bbody]
   | _ -> (Some "unparsable C18 case", None)
 
-let () = Evalreg.register "C18" run
+(* C18B kind sizes ; ev hs bodylen -- HTTP replies that are google.api.HttpBody messages (sent as their data bytes):
+   the same trace predicate, one out-payload event per reply carrying the length of what was sent *)
+let run_b inp obs : string option * string option =
+  match inp, obs with
+  | ["C18B"; _; _], ["panic"; _; _] -> (Some "the server panicked", None)
+  | ["C18B"; kind; sizes], [ev; hs; blen_] ->
+    let sizes = L.map int_of_string (S.split_on_char ',' sizes) in
+    let ss = kind = "down" in
+    let name = str_bytes ("/verif.c18b.Svc/M" ^ kind) in
+    (try
+       let evs = L.map (fun s ->
+           if S.contains s '!' || S.contains s '?' then failwith ("stats event with a wrong context or IsClient(): " ^ s) else parse_ev s) (split_list ev) in
+       if hs <> "200" then (Some (Printf.sprintf "an HttpBody reply was answered with status %s" hs), None)
+       else if (not ss) && int_of_string blen_ <> L.hd sizes then (Some "the HttpBody reply was not delivered as its data bytes", None)
+       else if EventsSpec.trace_ok name false ss [nat 0] (L.map nat sizes) (nat 0) evs then (None, None)
+       else (Some (Printf.sprintf "stats trace [%s] of an HTTP call answered with HttpBody data of sizes %s is not Tag.InHeader.Begin.InPayload.OutHeader.(one OutPayload per reply with that length).End"
+                     ev (S.concat "," (L.map string_of_int sizes))), None)
+     with Failure m -> (Some m, None))
+  | _ -> (Some "unparsable C18B case", None)
+
+(* C18Q shape n1 n2 ; ev gs late -- a proxied stream whose backend ends before the client has finished: the trace is
+   complete at End (one in-payload for the message the backend took, one out-payload for its answer), nothing after *)
+let run_q inp obs : string option * string option =
+  match inp, obs with
+  | ["C18Q"; _; _; _], ["panic"; _; _] -> (Some "the server panicked", None)
+  | ["C18Q"; shape; n1; _n2], [ev; gs; late] ->
+    let name = str_bytes ("/verif.c18q.Svc/M" ^ shape) in
+    (try
+       let evs = L.map (fun s ->
+           if S.contains s '!' || S.contains s '?' then failwith ("stats event with a wrong context or IsClient(): " ^ s) else parse_ev s) (split_list ev) in
+       let n1 = nat (int_of_string n1) in
+       if gs <> "0" then (Some (Printf.sprintf "the proxied call ended with grpc-status %s, the backend returned OK" gs), None)
+       else if late = "1" then (Some (Printf.sprintf "stats events were still reported after the request had been served: [%s]" ev), None)
+       else if EventsSpec.trace_ok name true (shape = "bi") [n1] [n1] (nat 0) evs then (None, None)
+       else (Some (Printf.sprintf "stats trace [%s] of a proxied stream the backend ended early is not Tag.InHeader.Begin.InPayload.OutHeader.OutPayload.OutTrailer.End (nothing after End)" ev), None)
+     with Failure m -> (Some m, None))
+  | _ -> (Some "unparsable C18Q case", None)
+
+let () = Evalreg.register "C18" run; Evalreg.register "C18B" run_b; Evalreg.register "C18Q" run_q
